@@ -31,6 +31,13 @@ func OpenLocalStore(workdir string, fs vfs.FS) (*LocalStore, error) {
 		return nil, fmt.Errorf("pd/storage: workdir is required")
 	}
 	fs = vfs.Ensure(fs)
+	// Drop a partially written edit left at the end of the manifest by a crash,
+	// as DB recovery does before it opens the manifest; manifest.Open alone fails
+	// on it (or keeps a bare length prefix that the next append turns into
+	// corruption). A missing CURRENT/manifest is left to Open's create-new path.
+	if err := manifest.Verify(workdir, fs); err != nil && !errors.Is(err, os.ErrNotExist) {
+		return nil, err
+	}
 	mgr, err := manifest.Open(workdir, fs)
 	if err != nil {
 		return nil, err
